@@ -204,6 +204,20 @@ theorem c02_pass_converges_where_hash_is_faithful (wall : Int → Int) (KA KB : 
       (fun x hx => (her.su x hx).1) her.adm q
     exact h1.trans h2.symm
 
+/-- … and with a recursion budget larger than the number of local edges — the Go recursion has no budget at all, the
+    correspondence driver runs the model with 2^(|A| + |B|) + 2 — the
+    depth premise disappears: a forest of |KA| edges has no path longer than |KA| (`belowD_depth`), so the agreement holds
+    for EVERY node below `n`. -/
+theorem c02_pass_converges_whole_subtree (wall : Int → Int) (KA KB : List Sh) (rootA rootB : Bytes) (fuel : Nat) (s : Pair)
+    (p n ta tb : Bytes) (hg : Good KA KB rootA rootB s) (hc : Ctx KA KB rootA rootB n) (hka : (p, n, ta) ∈ KA) (hkb : (p, n, tb) ∈ KB)
+    (hp1 : p ≠ rootS) (hp2 : p ≠ allS) (hp3 : p ≠ [])
+    (hrows : ∀ m, Below KA n m → RowsOkAt KA s m) (hfaith : ∀ t, PFwd s t → Faithful KA n t) (hfuel : KA.length < fuel) :
+    ∀ m, Below KA n m → AgreeAt KA (syncNode wall fuel s p n) m := by
+  intro m ⟨d, hd⟩
+  have := belowD_depth KA.length KA rfl hc.ta n m d hd
+  exact c02_pass_converges_where_hash_is_faithful wall KA KB rootA rootB fuel s p n ta tb hg hc hka hkb hp1 hp2 hp3 hrows hfaith d m
+    (by omega) hd
+
 /-- non-vacuity of the tree hypotheses: a node `a` under `R` with two children, one of which has a child, the same on
     both sides (the upstream has one more node elsewhere) -/
 example :
